@@ -1846,9 +1846,9 @@ impl<'a> CompositionGraphEncoder<'a> {
 
             // Go through the unsatisfied arguments and import them
             for (_, (name, kind)) in unsatisfied_args {
-                if let Some(import) = self.0.imports.get(name).copied() {
+                if let Some((_, import)) = find_extern_name(&self.0.imports, name) {
                     return Err(EncodeError::ImplicitImportConflict {
-                        import: NodeId(import),
+                        import: NodeId(*import),
                         instantiation: NodeId(index),
                         package: PackageKey::new(package),
                         name: name.to_string(),
